@@ -1,6 +1,7 @@
 package main
 
-// Entry point (3): handshake frames — handshake.IncomingHandshake / OutgoingHandshake / IncomingProtoHandshake
+// Entry point (3): handshake frames — handshake.IncomingHandshake / OutgoingHandshake / IncomingProtoHandshake /
+// OutgoingProtoHandshake
 // reading from a connection that delivers an attacker-chosen byte stream and then EOF. The callee runs the
 // handshake in its own goroutine, so a panic there is fatal: these cases run in the child process.
 
@@ -107,7 +108,7 @@ func frameRows(stream []byte) (rows []string, credOK bool) {
 }
 
 func init() {
-	// I[0] = which (0 incoming cred, 1 outgoing cred, 2 incoming proto); B[0] = stream; F[0] = writes succeed
+	// I[0] = which (0 incoming cred, 1 outgoing cred, 2 incoming proto, 3 outgoing proto); B[0] = stream; F[0] = writes succeed
 	register(&entry{name: "handshake", code: 10, child: true, modelled: true, allocK: 8 << 20,
 		run: func(r *Req, x map[string]string) error {
 			c := &memConn{in: r.B[0], writeOK: r.F[0]}
@@ -117,10 +118,15 @@ func init() {
 				_, err = handshake.IncomingHandshake(context.Background(), c, "peer", testChecker{})
 			case 1:
 				_, err = handshake.OutgoingHandshake(context.Background(), c, "peer", testChecker{})
-			default:
+			case 2:
 				_, err = handshake.IncomingProtoHandshake(context.Background(), c, handshake.ProtoChecker{
 					AllowedProtoTypes:  []handshakeproto.ProtoType{handshakeproto.ProtoType_DRPC},
 					SupportedEncodings: []handshakeproto.Encoding{handshakeproto.Encoding_Snappy, handshakeproto.Encoding_None},
+				})
+			default:
+				_, err = handshake.OutgoingProtoHandshake(context.Background(), c, &handshakeproto.Proto{
+					Proto:     handshakeproto.ProtoType_DRPC,
+					Encodings: []handshakeproto.Encoding{handshakeproto.Encoding_Snappy, handshakeproto.Encoding_None},
 				})
 			}
 			return err
@@ -136,7 +142,7 @@ func init() {
 func genHandshake(h *harness, rng *vlib.Rand, n int) {
 	big := 0
 	for i := 0; i < n; i++ {
-		which := int64(i % 3)
+		which := int64(i % 4)
 		payload := "good"
 		if rng.Chance(1, 5) {
 			payload = "bad"
@@ -156,8 +162,14 @@ func genHandshake(h *harness, rng *vlib.Rand, n int) {
 		switch which {
 		case 0, 1:
 			stream = append(frame(1, cred), frame(2, ack)...)
-		default:
+		case 2:
 			stream = frame(3, proto)
+		default: // the answer to our proto: a proto, or an ack from an old peer
+			if rng.Chance(1, 3) {
+				stream = frame(2, ack)
+			} else {
+				stream = frame(3, proto)
+			}
 		}
 		gen := "valid"
 		writeOK := !rng.Chance(1, 12)
@@ -195,7 +207,7 @@ func genHandshake(h *harness, rng *vlib.Rand, n int) {
 				sz := 200*1024 - 1 + rng.Intn(3)
 				body := make([]byte, sz) // zero bytes: field number 0 => the generated decoder rejects
 				tp := byte(1)
-				if which == 2 {
+				if which >= 2 {
 					tp = 3
 				}
 				stream = frame(tp, body)
